@@ -125,13 +125,30 @@ def Wrapper(m: h.Instantiable) -> h.Module:
 
     # Copy the inner-cell ports
     # Note this also serves as the connections-dict to the inner instance
-    wrapper_io = {p.name: wrapper.add(deepcopy(p)) for p in io(m).values()}
+    wrapper_io = {p.name: wrapper.add(_copy_port(p)) for p in io(m).values()}
 
     # Create the inner instance
     wrapper.add(h.Instance(name="inner", of=m)(**wrapper_io))
 
     # And return the wrapper
     return wrapper
+
+
+def _copy_port(p: Union[h.Signal, h.BundleInstance]) -> Union[h.Signal, h.BundleInstance]:
+    """Copy a (Signal or Bundle valued) port, for use in another Module."""
+    if isinstance(p, h.BundleInstance):
+        # Bundle instances refer to their `Bundle` definition, which is shared rather than (deep) copied.
+        return h.BundleInstance(
+            name=p.name,
+            of=p.of,
+            port=p.port,
+            flipped=p.flipped,
+            role=p.role,
+            src=p.src,
+            dest=p.dest,
+            desc=p.desc,
+        )
+    return deepcopy(p)
 
 
 @h.paramclass
